@@ -146,6 +146,7 @@ type Run struct {
 	pbMsgs   []Value
 	makeSites map[string]map[int]*Term
 	preempts int
+	pools    map[*Object][]Value // sync.Pool free lists
 	readyCnt int
 	randReader PtrV // model of crypto/rand.Reader
 	schedTrace []string // rt.SchedPoint tags in the order they were passed
